@@ -28,6 +28,7 @@ func genARPSpoof(prop string, seed uint64, tier string) Scenario {
 	c.HostLLA = true
 	c.ARP = true
 	c.Concurrent = true
+	c.ReuseBuf = r.chance(1, 2)
 	c.Debug = r.chance(1, 4)
 	c.PreemptN = r.pick(1, 1, 4, 16)
 	c.HintMax = r.pick(0, 10, 100)
@@ -212,27 +213,45 @@ func runARPSpoof(e *exec) {
 			}
 		}
 		sort.Slice(ev, func(i, j int) bool { return ev[i].seq < ev[j].seq })
-		// S1: forged frames only while the MAC can still be hunted
+		// S1: forged frames only while the MAC can still be hunted. A loop that ends sends the
+		// restoring packet as its last frame, so a restore after a StopHunt retires one loop; but a
+		// StartHunt that follows a StopHunt within the same cycle legitimately overlaps with the old
+		// loop's exit, so loops are counted (an upper bound: a StartHunt of a MAC that is already
+		// hunted starts none) and only the restore of the last one ends the licence to forge.
+		// Independently of the count, nothing forged may arrive later than one cycle after the last
+		// StopHunt returned.
 		possible := false
+		loops := 0
 		lastStopInv := int64(-1)
+		lastStopRet := time.Duration(-1)
 		startedAfterStop := false
 		for _, x := range ev {
 			switch x.kind {
 			case "start":
 				possible = true
+				loops++
 				if lastStopInv >= 0 && x.seq > lastStopInv {
 					startedAfterStop = true
 				}
 			case "stop-inv":
 				lastStopInv = x.seq
+				lastStopRet = -1
 				startedAfterStop = false
+			case "stop-ret":
+				if !startedAfterStop {
+					lastStopRet = x.t
+				}
 			case "restore":
 				if lastStopInv >= 0 && !startedAfterStop {
-					possible = false
+					if loops--; loops <= 0 {
+						possible, loops = false, 0
+					}
 				}
 			case "forged", "forged-reply":
 				if !possible {
 					e.violate("C13.confinement", x.kind+"-to-host-not-hunted", fmt.Sprintf("%s frame to %s at seq=%d t=%v although the host is not in the hunt list (events: %s)", x.kind, mac, x.seq, x.t, evString(ev)))
+				} else if e.sc.Cfg.StallDen == 0 && lastStopRet >= 0 && !startedAfterStop && x.t > lastStopRet+7*time.Second {
+					e.violate("C13.confinement", x.kind+"-later-than-one-cycle-after-stophunt", fmt.Sprintf("%s frame to %s at t=%v, StopHunt returned at %v and nobody hunted it again (events: %s)", x.kind, mac, x.t, lastStopRet, evString(ev)))
 				}
 			}
 		}
